@@ -81,6 +81,10 @@ def generate(tier, rng):
     for x in range(0, 65536, 1 if big else 5):
         out.append("TKE F16(%d)" % half_to_f32_bits(x))
     out += ["TKE F16(%d)" % rng.getrandbits(32) for _ in range(3000)]
+    # the self-described-CBOR tag 55799 in front (d9 d9 f7), also nested and repeated: a tag like any other
+    for body in ("01", "80", "d9d9f701", "6161", "9f01ff", "a10102", "f93c00"):
+        out.append("TK d9d9f7%s pref" % body)
+        out.append("TK 82d9d9f7%s00 pref" % body)
     return out
 
 def half_to_f32_bits(h):
